@@ -14,6 +14,7 @@
 package portfolio
 
 import (
+	"bytes"
 	"fmt"
 	"log"
 	"os"
@@ -98,7 +99,8 @@ func (r *returnsRunner) execute(cmd *cobra.Command, args []string) error {
 	}
 	// Perf registers the period end dates with the builder, which must happen
 	// before the journal is built.
-	perf := performance.Perf(j, partition)
+	var out bytes.Buffer
+	perf := performance.Perf(j, partition, &out)
 	err = j.Build().Process(
 		journal.ComputePrices(valuation),
 		check.Check(),
@@ -107,5 +109,10 @@ func (r *returnsRunner) execute(cmd *cobra.Command, args []string) error {
 		calculator.ComputeFlows(),
 		perf,
 	)
+	if err != nil {
+		// nothing is printed for a journal that is rejected
+		return err
+	}
+	_, err = out.WriteTo(cmd.OutOrStdout())
 	return err
 }
